@@ -103,7 +103,11 @@ func checkC10(c *Ctx) {
 				if ok, by := pm.mapInitialised(s); ok {
 					c.OK(P1, fn, construct, pos, by)
 				} else {
-					c.Bad(P1, fn, construct, pos, "nothing in the package ever makes this map: the first store panics (assignment to entry in nil map)")
+					why := "nothing in the package ever makes this map"
+					if by != "" {
+						why = by
+					}
+					c.Bad(P1, fn, construct, pos, why+": a store panics (assignment to entry in nil map)")
 				}
 			case "nilcall":
 				if ok, by := pm.fieldAssigned(s); ok {
@@ -312,6 +316,8 @@ func (pm *panicModel) mapInitialised(s panicSite) (bool, string) {
 		for _, st := range storesToField([]*ssa.Function{f}, fld) {
 			if _, ok := strip(st.Val).(*ssa.MakeMap); ok {
 				where = append(where, f.Name())
+			} else if isNilConst(st.Val) && !isFreshLocal(st.Addr.(*ssa.FieldAddr).X, f) {
+				return false, "the map is reset to nil in " + f.Name() + " while network-reachable code can still store into it"
 			}
 		}
 	}
